@@ -286,4 +286,57 @@ Proof.
   intros i Hi. rewrite (Hvin i ltac:(lia) Hi). unfold dr_Vf.
   destruct (Hin i ltac:(lia) Hi) as [-> ->]. reflexivity.
 Qed.
+
+(* ---- one whole iteration of the regenerated main loop body ---- *)
+Lemma dr_iter_nonlast k s x vs P2 W2 p1 z1 w1 :
+  dr_st s x vs P2 W2 p1 z1 w1 ->
+  exists s' vs' P2' W2' p1' z1' w1',
+    litems_last (drI k) rkey dr_n false douglas_rachford_pd_lbody s = Some s'
+    /\ dr_st s' (dr_x2 k x vs) vs' P2' W2' p1' z1' w1'
+    /\ l_log s' = (l_log s ++ [dr_p1a x vs])%list
+    /\ (forall i, (i < dr_n)%nat -> vs' i = dr_vs' k x vs i).
+Proof.
+  intros Hs. rewrite dr_shape.
+  change [IStmt (dr_s 0); IForFrom 1 dr_bA; IStmt (dr_s 2); IStmt (dr_s 3); IStmt (dr_s 4); IStmt (dr_s 5); IStmt (dr_s 6);
+          IIfLast dr_last; IFor dr_bP; IStmt (dr_s 9); IForFrom 1 dr_bB; IStmt (dr_s 11); IStmt (dr_s 12); IStmt (dr_s 13);
+          IFor dr_bV]
+    with ([IStmt (dr_s 0); IForFrom 1 dr_bA; IStmt (dr_s 2); IStmt (dr_s 3); IStmt (dr_s 4); IStmt (dr_s 5); IStmt (dr_s 6)]
+          ++ IIfLast dr_last :: [IFor dr_bP; IStmt (dr_s 9); IForFrom 1 dr_bB; IStmt (dr_s 11); IStmt (dr_s 12); IStmt (dr_s 13);
+                                 IFor dr_bV])%list.
+  assert (Happ : forall l1 l2 st, litems_last (drI k) rkey dr_n false (l1 ++ IIfLast dr_last :: l2)%list st
+                  = obind (litems_last (drI k) rkey dr_n false l1 st) (litems_last (drI k) rkey dr_n false l2)).
+  { induction l1 as [|it l1 IH]; intros l2 st; [reflexivity|].
+    destruct it; cbn [app litems_last];
+      first [ reflexivity | apply IH
+            | match goal with |- obind ?a _ = obind (obind ?a _) _ => destruct a; cbn [obind]; [apply IH | reflexivity] end ]. }
+  rewrite Happ.
+  destruct (dr_half1_heap k s x vs P2 W2 p1 z1 w1 Hs) as (s1 & z1' & E1 & Hs1 & Hlog1). rewrite E1. cbn [obind].
+  destruct (dr_half2_heap k s1 _ vs P2 W2 _ z1' _ Hs1) as (s2 & vs' & P2' & W2' & E2 & Hs2 & Hlog2 & Hvs').
+  rewrite E2. exists s2, vs', P2', W2'. do 3 eexists. split; [reflexivity|]. split; [exact Hs2|]. split; [congruence|].
+  exact Hvs'.
+Qed.
+(* the last iteration: the first half, then  x.assign(p1); return *)
+Lemma dr_iter_last k s x vs P2 W2 p1 z1 w1 :
+  dr_st s x vs P2 W2 p1 z1 w1 ->
+  exists s', litems_last (drI k) rkey dr_n true douglas_rachford_pd_lbody s = Some s'
+    /\ hget (l_heap s') (OCaller "x") = Some (dr_p1a x vs)
+    /\ l_log s' = (l_log s ++ [dr_p1a x vs])%list.
+Proof.
+  intros Hs. rewrite dr_shape.
+  assert (Hpre : forall st,
+    litems_last (drI k) rkey dr_n true
+      [IStmt (dr_s 0); IForFrom 1 dr_bA; IStmt (dr_s 2); IStmt (dr_s 3); IStmt (dr_s 4); IStmt (dr_s 5); IStmt (dr_s 6);
+       IIfLast dr_last; IFor dr_bP; IStmt (dr_s 9); IForFrom 1 dr_bB; IStmt (dr_s 11); IStmt (dr_s 12); IStmt (dr_s 13);
+       IFor dr_bV] st
+    = obind (litems_last (drI k) rkey dr_n false
+               [IStmt (dr_s 0); IForFrom 1 dr_bA; IStmt (dr_s 2); IStmt (dr_s 3); IStmt (dr_s 4); IStmt (dr_s 5); IStmt (dr_s 6)] st)
+            (lexec (drI k 0) rkey 0 dr_last)).
+  { intros st. cbn [litems_last].
+    repeat match goal with |- obind ?a _ = obind (obind ?a _) _ => destruct a; cbn [obind]; [|reflexivity] end.
+    reflexivity. }
+  rewrite Hpre.
+  destruct (dr_half1_heap k s x vs P2 W2 p1 z1 w1 Hs) as (s1 & z1' & E1 & Hs1 & Hlog1). rewrite E1. cbn [obind].
+  destruct s1 as [ve le h nx log]. dr_open Hs1.
+  eexists. split; [cbv [dr_last]; unfold lexec; lsym; reflexivity|]. split; [lsym; reflexivity | exact Hlog1].
+Qed.
 End DRsweep.
